@@ -596,8 +596,14 @@ func c11cGenConfig(r *vlib.Rand, i int) c11cConfig {
 	}
 	cfg.BrokerPort = "none"
 	pk := r.Intn(10)
-	if cfg.Mode == "amp-cache" && pk >= 2 && pk <= 3 && !r.Chance(1, 4) {
-		pk = 9 // a port other than the default makes CacheURL refuse: keep those rare
+	if cfg.Mode == "amp-cache" {
+		// a port other than the default makes CacheURL refuse the pair
+		// (documented): one block of 18 in 8 has it, the others never
+		if (i/18)%8 == 7 {
+			pk = 2
+		} else if pk >= 2 && pk <= 3 {
+			pk = 9
+		}
 	}
 	switch {
 	case pk < 2:
@@ -739,6 +745,29 @@ type c11cHarness struct {
 	tr    *http.Transport
 	L     int
 	dead  bool // an exchange did not return: nothing more can be decided
+}
+
+// redirect makes sure the connections of the transport a rendezvous method was
+// given go to the front listener. createBrokerTransport hands out
+// http.DefaultTransport or a clone of it, which already carries the recorder;
+// a transport built from scratch gets it here, before its first use.
+func (h *c11cHarness) redirect(rt http.RoundTripper) *http.Transport {
+	t2, ok := rt.(*http.Transport)
+	if !ok {
+		return nil // wrapped (uTLS): plain-http requests go to the wrapped clone
+	}
+	if t2 != h.tr {
+		t2.DialContext = h.front.dial
+		if t2.TLSClientConfig == nil {
+			t2.TLSClientConfig = &tls.Config{InsecureSkipVerify: true}
+		} else if !t2.TLSClientConfig.InsecureSkipVerify {
+			t2.TLSClientConfig.InsecureSkipVerify = true
+		}
+		h.res.Obs("cfg:transport-is-own-copy", 1)
+	} else {
+		h.res.Obs("cfg:transport-is-default-transport", 1)
+	}
+	return t2
 }
 
 func c11cHexPrefix(b []byte) string {
@@ -1082,18 +1111,15 @@ func TestVerifC11c(t *testing.T) {
 			}
 		}
 		rmode := "amp"
+		var cur *http.Transport // the transport of this configuration, when it can be reached
 		switch rv := bc.Rendezvous.(type) {
 		case *httpRendezvous:
 			rmode = "http"
 			res.Require(cfg.Mode == "http", fmt.Sprintf("cfg/%d: %s configuration built an httpRendezvous", i, cfg.Mode))
-			if t2, ok := rv.transport.(*http.Transport); ok && t2 != tr {
-				t2.DialContext, t2.TLSClientConfig = front.dial, &tls.Config{InsecureSkipVerify: true}
-			}
+			cur = h.redirect(rv.transport)
 		case *ampCacheRendezvous:
 			res.Require(cfg.Mode != "http", fmt.Sprintf("cfg/%d: http configuration built an ampCacheRendezvous", i))
-			if t2, ok := rv.transport.(*http.Transport); ok && t2 != tr {
-				t2.DialContext, t2.TLSClientConfig = front.dial, &tls.Config{InsecureSkipVerify: true}
-			}
+			cur = h.redirect(rv.transport)
 		default:
 			res.Require(false, fmt.Sprintf("cfg/%d: unknown rendezvous type %T", i, bc.Rendezvous))
 			continue
@@ -1103,7 +1129,9 @@ func TestVerifC11c(t *testing.T) {
 			tab = httpTab
 		}
 		useTLS := e.Scheme == "https"
-		res.Obs("cfg:"+cfg.Mode+":"+ftag+":"+e.Scheme, 1)
+		if e.Rejected == "" {
+			res.Obs("cfg:"+cfg.Mode+":"+ftag+":"+e.Scheme, 1)
+		}
 		res.Obs("cfg:broker-port:"+cfg.BrokerPort, 1)
 		res.Obs("cfg:broker-path:"+cfg.BrokerPath, 1)
 		if cfg.UTLS != "" {
@@ -1144,7 +1172,9 @@ func TestVerifC11c(t *testing.T) {
 			} else {
 				res.Obs("cfg:rejected-by-cacheurl:something-sent", 1)
 			}
-			tr.CloseIdleConnections()
+			if cur != nil {
+				cur.CloseIdleConnections()
+			}
 			continue
 		}
 
@@ -1262,7 +1292,9 @@ func TestVerifC11c(t *testing.T) {
 				res.Note("body_of_exactly_the_limit:"+rmode, map[string]interface{}{"accepted": xerr == nil, "returned_len": len(data)})
 			}
 		}
-		tr.CloseIdleConnections()
+		if cur != nil {
+			cur.CloseIdleConnections()
+		}
 	}
 
 	// ---- minimum coverage
@@ -1291,6 +1323,7 @@ func TestVerifC11c(t *testing.T) {
 	res.RequireObs("cfg:broker-path:/sub/", 1)
 	res.RequireObs("cfg:broker-path:/sub", 1)
 	res.RequireObs("cfg:broker-path:", 1)
+	res.RequireObs("cfg:rejected-by-cacheurl:error-and-nothing-sent", 1)
 	for _, sc := range httpTab {
 		res.RequireObs("resp:http:"+sc.Class, 1)
 	}
@@ -1311,7 +1344,7 @@ func TestVerifC11c(t *testing.T) {
 	res.RequireObs("resp:amp:armor-real:P=100001:error", 1)
 	res.RequireObs("resp:http:within-limit-faithful", 5)
 	res.RequireObs("resp:amp:within-limit-faithful", 5)
-	res.Require(ampTab != nil && len(ampTab) >= 50, fmt.Sprintf("AMP response table has only %d classes (an armor of exact length could not be built)", len(ampTab)))
+	res.Require(len(ampTab) >= 60, fmt.Sprintf("AMP response table has only %d classes (an armor of exact length could not be built)", len(ampTab)))
 
 	// every connection the transport opened is one the recorder saw
 	for k := 0; k < 100 && atomic.LoadInt64(&front.accepted) < atomic.LoadInt64(&front.dialled); k++ {
@@ -1322,6 +1355,7 @@ func TestVerifC11c(t *testing.T) {
 	front.mu.Unlock()
 	res.Note("tcp_connections_accepted", atomic.LoadInt64(&front.accepted))
 	res.Note("dials_recorded", atomic.LoadInt64(&front.dialled))
-	res.Require(atomic.LoadInt64(&front.accepted) == atomic.LoadInt64(&front.dialled), fmt.Sprintf("front accepted %d connections but %d dials were recorded", front.accepted, front.dialled))
+	nAcc, nDial := atomic.LoadInt64(&front.accepted), atomic.LoadInt64(&front.dialled)
+	res.Require(nAcc == nDial, fmt.Sprintf("front accepted %d connections but %d dials were recorded", nAcc, nDial))
 	res.Require(stray == 0, fmt.Sprintf("%d dials / handshakes / requests happened outside any observed exchange", stray))
 }
